@@ -5,6 +5,7 @@ import (
 	"go/constant"
 	"go/token"
 	"go/types"
+	"sort"
 	"strings"
 
 	"golang.org/x/tools/go/ssa"
@@ -276,9 +277,9 @@ func FuncIs(f *ssa.Function, pkgPath, name string) bool {
 			return false
 		}
 		n := NamedOf(sig.Recv().Type())
-		return n != nil && n.Obj().Name() == name[:i] && obj.Name() == name[i+1:]
+		return n != nil && n.Obj().Name() == name[:i] && NameOf(f) == name[i+1:]
 	}
-	return sig.Recv() == nil && obj.Name() == name
+	return sig.Recv() == nil && NameOf(f) == name
 }
 
 // AllInstrs calls f for every instruction of fn (not of its closures).
@@ -792,4 +793,160 @@ func DelegateTo(fn *ssa.Function) (*ssa.Function, []ssa.Value) {
 		return fn, nil
 	}
 	return g, call.Call.Args
+}
+
+// SigString renders the parameter and result types of fn (without the receiver), package-qualified by full path.
+func SigString(fn *ssa.Function) string {
+	sig := fn.Signature
+	q := func(p *types.Package) string { return p.Path() }
+	anon := func(t *types.Tuple) *types.Tuple {
+		var vs []*types.Var
+		for i := 0; i < t.Len(); i++ {
+			vs = append(vs, types.NewVar(token.NoPos, nil, "", t.At(i).Type()))
+		}
+		return types.NewTuple(vs...)
+	}
+	return types.TypeString(types.NewSignatureType(nil, nil, nil, anon(sig.Params()), anon(sig.Results()), sig.Variadic()), q)
+}
+
+// --- rename tolerance -------------------------------------------------------------------------------------------------
+// A function of the pinned tree that is missing from the current tree, and a function of the current tree that the pinned tree
+// does not have, are the same function under a new name when they are declared on the same receiver type (or both plain
+// functions of the same package), have identical parameter and result types, and the match is unique in both directions.
+
+var renameCache = map[*ssa.Package]map[*ssa.Function]string{}
+
+func pkgTopFuncs(pkg *ssa.Package) []*ssa.Function {
+	var out []*ssa.Function
+	seen := map[*ssa.Function]bool{}
+	for _, name := range SortedKeys(pkg.Members) {
+		switch mem := pkg.Members[name].(type) {
+		case *ssa.Function:
+			if mem.Synthetic == "" && !seen[mem] {
+				seen[mem] = true
+				out = append(out, mem)
+			}
+		case *ssa.Type:
+			for _, t := range []types.Type{mem.Type(), types.NewPointer(mem.Type())} {
+				ms := pkg.Prog.MethodSets.MethodSet(t)
+				for i := 0; i < ms.Len(); i++ {
+					if fn := pkg.Prog.MethodValue(ms.At(i)); fn != nil && fn.Pkg == pkg && fn.Synthetic == "" && !seen[fn] {
+						seen[fn] = true
+						out = append(out, fn)
+					}
+				}
+			}
+		}
+	}
+	return out
+}
+
+// ownerPrefix is fn.String() without the function's own name: "(*pkg.T)." or "pkg.".
+func ownerPrefix(full string) string {
+	i := strings.LastIndex(full, ".")
+	if i < 0 {
+		return ""
+	}
+	return full[:i+1]
+}
+
+func renamesOf(pkg *ssa.Package) map[*ssa.Function]string {
+	if m, ok := renameCache[pkg]; ok {
+		return m
+	}
+	m := map[*ssa.Function]string{}
+	renameCache[pkg] = m
+	cur := pkgTopFuncs(pkg)
+	present := map[string]bool{}
+	var unknown []*ssa.Function
+	for _, f := range cur {
+		present[f.String()] = true
+		if !KnownFuncs[f.String()] {
+			unknown = append(unknown, f)
+		}
+	}
+	// missing pinned functions of this package
+	var missing []string
+	for name := range KnownFuncs {
+		if present[name] {
+			continue
+		}
+		pre := ownerPrefix(name)
+		if pre == pkg.Pkg.Path()+"." || strings.HasPrefix(pre, "(*"+pkg.Pkg.Path()+".") || strings.HasPrefix(pre, "("+pkg.Pkg.Path()+".") {
+			missing = append(missing, name)
+		}
+	}
+	sort.Strings(missing)
+	candOf := map[string][]*ssa.Function{}
+	claims := map[*ssa.Function]int{}
+	for _, name := range missing {
+		for _, f := range unknown {
+			if ownerPrefix(f.String()) == ownerPrefix(name) && SigString(f) == KnownSigs[name] {
+				candOf[name] = append(candOf[name], f)
+				claims[f]++
+			}
+		}
+	}
+	for _, name := range missing {
+		if c := candOf[name]; len(c) == 1 && claims[c[0]] == 1 {
+			m[c[0]] = name
+		}
+	}
+	return m
+}
+
+// PinnedFull returns the name (fn.String() form) under which the rules know fn: its own if the pinned tree has it, the pinned
+// name it was renamed from if that can be told, otherwise its own.
+func PinnedFull(fn *ssa.Function) string {
+	if fn == nil {
+		return ""
+	}
+	if fn.Pkg == nil || KnownFuncs[fn.String()] || fn.Parent() != nil {
+		return fn.String()
+	}
+	if old, ok := renamesOf(fn.Pkg)[fn]; ok {
+		return old
+	}
+	return fn.String()
+}
+
+// NameOf is fn.Name() in the rules' vocabulary (see PinnedFull); a function literal is named after its renamed parent.
+func NameOf(fn *ssa.Function) string {
+	if fn == nil {
+		return ""
+	}
+	if fn.Parent() != nil {
+		p := fn.Parent()
+		if strings.HasPrefix(fn.Name(), p.Name()) {
+			return NameOf(p) + fn.Name()[len(p.Name()):]
+		}
+		return fn.Name()
+	}
+	full := PinnedFull(fn)
+	if i := strings.LastIndex(full, "."); i >= 0 {
+		return full[i+1:]
+	}
+	return fn.Name()
+}
+
+// FindPinned finds, in pkg, the function the pinned tree calls recv.name (recv "" for plain functions).
+func FindPinned(pkg *ssa.Package, recv, name string) *ssa.Function {
+	if pkg == nil {
+		return nil
+	}
+	for _, f := range pkgTopFuncs(pkg) {
+		if NameOf(f) != name {
+			continue
+		}
+		r := ""
+		if f.Signature.Recv() != nil {
+			if n := NamedOf(f.Signature.Recv().Type()); n != nil {
+				r = n.Obj().Name()
+			}
+		}
+		if r == recv {
+			return f
+		}
+	}
+	return nil
 }
